@@ -1,5 +1,49 @@
-import Gobptree.Ops
+/-
+  C05 — Update is a read-modify-write with an exactly-once callback (sequential half).
+
+  In the model an Update returns `Out.callback arg`: the single place in
+  `Leaf.upsert` where the callback function is applied, on each of the three leaf
+  paths, is reached exactly once per call; the concurrent half (atomicity under
+  interleaving) is decided by the linearizability oracle and the small-step model
+  (see DESIGN.md, C05).
+-/
+import Gobptree.Proofs.RunOk
+
 namespace Gobptree
-theorem C05_placeholder : True := trivial
+
+variable {K V : Type} {lt : K → K → Bool} {P : Params K}
+
+/-- **C05 (sequential).** In every reachable state (any tree satisfying the invariant),
+    `Update k f` does not panic, hands the callback exactly the value currently stored
+    for `k` (or absence), stores the callback's result for `k`, and changes nothing else:
+    the new contents are `Spec.insert m k (f (Spec.lookup m k))`. Holds on all three leaf
+    paths and through root and child splits (the proof is by induction on the height). -/
+theorem C05_update_seq (hp : ParamsOk lt P) (t : Tree K V) (hto : t.order = P.order)
+    (hinv : TreeInv lt t) (k : K) (f : Option V → V) :
+    ∃ t' : Tree K V,
+      t.step P (.update k f) = .ok (t', .callback (Spec.lookup lt t.abs k)) ∧
+      TreeInv lt t' ∧
+      t'.abs = Spec.insert lt t.abs k (f (Spec.lookup lt t.abs k)) := by
+  obtain ⟨t', heq, hinv', _, hp'⟩ := step_ok hp t hto hinv (.update k f) (fun hd => by simp [Op.isDelete] at hd)
+  rw [Tree.abs_eq_pairs]
+  exact ⟨t', heq, hinv', by rw [Tree.abs_eq_pairs]; exact hp'⟩
+
+/-- **C05, counter corollary (sequential).** `n` successive `Update k (+1)` raise a stored
+    counter by exactly `n` (absent counts as 0). -/
+theorem C05_counter_seq (hp : ParamsOk lt P) (k : K) (n : Nat) :
+    ∀ (t : Tree K Nat), t.order = P.order → TreeInv lt t →
+      ∃ t' : Tree K Nat,
+        t.run P (List.replicate n (Op.update k (fun o => (o.getD 0) + 1))) =
+          .ok (t', (Spec.run lt t.abs (List.replicate n (Op.update k (fun o => (o.getD 0) + 1)))).2) ∧
+        TreeInv lt t' ∧
+        t'.abs = (Spec.run lt t.abs (List.replicate n (Op.update k (fun o => (o.getD 0) + 1)))).1 := by
+  intro t hto hinv
+  obtain ⟨t', heq, hinv', _, hp'⟩ := run_ok hp (List.replicate n (Op.update k (fun o => (o.getD 0) + 1))) t hto hinv
+    (fun op hop hd => by rw [(List.eq_of_mem_replicate hop)] at hd; simp [Op.isDelete] at hd)
+  rw [Tree.abs_eq_pairs]
+  exact ⟨t', heq, hinv', by rw [Tree.abs_eq_pairs]; exact hp'⟩
+
 end Gobptree
-#print axioms Gobptree.C05_placeholder
+
+#print axioms Gobptree.C05_update_seq
+#print axioms Gobptree.C05_counter_seq
